@@ -4,6 +4,9 @@ package sim
 
 import (
 	"fmt"
+	"math/rand"
+	"os"
+	"path/filepath"
 	"sort"
 	"strconv"
 	"strings"
@@ -14,9 +17,9 @@ import (
 )
 
 type NNICase struct {
-	Tree    string `json:"tree"`    // unrooted binary tree (text)
-	Moves   []HOp  `json:"moves"`   // history of root moves through the API
-	Pattern []int  `json:"pattern"` // per proposal (cyclic): bit 0 Apply twice, bit 1 Undo twice, bit 2 check structure through the API
+	Tree    string `json:"tree"`              // unrooted binary tree (text)
+	Moves   []HOp  `json:"moves"`             // history of root moves through the API
+	Pattern []int  `json:"pattern"`           // per proposal (cyclic): bit 0 Apply twice, bit 1 Undo twice, bit 2 check structure through the API
 	Collect bool   `json:"collect,omitempty"` // true: the callback only stores the proposals, they are applied / undone in enumeration order afterwards
 }
 
@@ -49,7 +52,7 @@ func init() {
 		Exec:      execC17,
 		Real:      []string{"tree.NNIRearranger.Rearrange", "nni.Apply / Undo", "Tree.Reroot / RerootOutGroup / RerootMidPoint / UnRoot / RemoveSingleNodes", "Newick writer"},
 		Simulated: []string{"the history of root moves before the enumeration", "the apply/undo pattern inside the callback", "global math/rand seam seeded per step"},
-		Expected:  []string{"rooted", "unrooted", "root-moved", "apply-twice", "undo-twice", "collected-then-applied", "applied-inside-callback"},
+		Expected:  []string{"rooted", "unrooted", "root-moved", "apply-twice", "undo-twice", "collected-then-applied", "applied-inside-callback", "nni-command", "nni-command-several-trees"},
 	})
 }
 
@@ -142,6 +145,11 @@ func execC17(t *testing.T, cc any, o *Outcome) {
 		return
 	}
 	origInner, _ := splitKeysOf(orig, false)
+	origSplitInfo := map[string]*SplitInfo{}
+	if om, err := ParseRef(orig); err == nil && !rooted {
+		// (for a rooted tree the two root branches share one split and an NNI next to the root may re-distribute them: left out)
+		origSplitInfo = om.Splits()
+	}
 	ntips := len(tr.Tips())
 	// branches the generator must enumerate, with their splits (from the walk, not from the index)
 	all := sortedTipNames(tr)
@@ -196,6 +204,20 @@ func execC17(t *testing.T, cc any, o *Outcome) {
 			if len(out) != 1 || len(in) != 1 {
 				o.Fail("nni:not-one-split", "proposal %d: the neighbour lacks %v and adds %v (exactly one each expected)\n%s\nafter %s", nprop, out, in, ctx(), after)
 				return false
+			}
+			// every other branch is the same branch: its length travels with its split (tip branches included)
+			if am, err := ParseRef(after); err == nil {
+				as := am.Splits()
+				for k, b := range origSplitInfo {
+					a, common := as[k]
+					if !common {
+						continue
+					}
+					if a.HasLen != b.HasLen || a.Len != b.Len {
+						o.Fail("nni:length-moved", "proposal %d: branch {%s} has length %v (present %v) after Apply, %v (present %v) before\n%s\nafter %s", nprop, k, a.Len, a.HasLen, b.Len, b.HasLen, ctx(), after)
+						return false
+					}
+				}
 			}
 			removed[out[0]]++
 			key := strings.Join(afterInner, ";")
@@ -261,4 +283,86 @@ func execC17(t *testing.T, cc any, o *Outcome) {
 	}
 	o.Nontrivial = moved && nprop >= 4
 	o.Key = orig
+	if len(o.Viols) == 0 {
+		checkNNICommand(t, o, c, orig)
+	}
+}
+
+// checkNNICommand runs `gotree nni` in-process on a file of one to three trees (the case's tree and re-rooted copies of its
+// source) and checks the neighbours it prints, tree by tree.
+func checkNNICommand(t *testing.T, o *Outcome, c *NNICase, orig string) {
+	inputs := []string{orig}
+	if len(c.Pattern) > 1 {
+		inputs = append(inputs, c.Tree)
+	}
+	if len(c.Pattern) > 3 {
+		if m, err := ParseRef(c.Tree); err == nil {
+			inputs = append(inputs, represent(m, mathRnd{rand.New(rand.NewSource(int64(len(orig))))}).Newick())
+		}
+	}
+	dir, err := os.MkdirTemp("", "verifc17")
+	if err != nil {
+		panic("harness: " + err.Error())
+	}
+	defer os.RemoveAll(dir)
+	os.WriteFile(filepath.Join(dir, "in.nw"), []byte(strings.Join(inputs, "\n")+"\n"), 0644)
+	tpl := &detTemplate{name: "nni", args: []string{"nni", "-i", "@in.nw", "--seed", "1", "-o", "@OUT"}}
+	res := runInProcess(t, dir, tpl, &DetCase{Seed: 1, Threads: 1}, Seam{MapSeed: 1, Epoch: 1000, Sched: seqSched()}, "nni")
+	o.Probe("nni-command")
+	if len(inputs) > 1 {
+		o.Probe("nni-command-several-trees")
+	}
+	if res.status != "ok" {
+		o.Fail("nni:command-failed", "gotree nni fails (%s) on\n%s", res.status, strings.Join(inputs, "\n"))
+		return
+	}
+	var lines []string
+	for _, ln := range strings.Split(res.outs["OUT"], "\n") {
+		if strings.TrimSpace(ln) != "" {
+			lines = append(lines, ln)
+		}
+	}
+	pos := 0
+	for ti, in := range inputs {
+		m, err := ParseRef(in)
+		if err != nil {
+			return
+		}
+		inner, _ := splitKeysOf(in, false)
+		want := 0
+		tr := mustParse(in)
+		for _, e := range tr.Edges() {
+			if e.Left().Nneigh() == 3 && e.Right().Nneigh() == 3 {
+				want += 2
+			}
+		}
+		_ = m
+		seen := map[string]bool{}
+		for k := 0; k < want; k++ {
+			if pos >= len(lines) {
+				o.Fail("nni:command-count", "gotree nni prints %d trees, at least %d expected for tree %d of %d\ninput:\n%s\noutput:\n%s", len(lines), pos+1, ti, len(inputs), strings.Join(inputs, "\n"), res.outs["OUT"])
+				return
+			}
+			got, err := splitKeysOf(lines[pos], false)
+			pos++
+			if err != nil {
+				o.Fail("nni:command-output-unreadable", "gotree nni prints %q", lines[pos-1])
+				return
+			}
+			out, add := setDiff(inner, got)
+			if len(out) != 1 || len(add) != 1 {
+				o.Fail("nni:command-not-a-neighbour", "line %d of the output is not an NNI neighbour of input tree %d (lacks %v, adds %v)\ninput:\n%s\noutput:\n%s", pos, ti, out, add, strings.Join(inputs, "\n"), res.outs["OUT"])
+				return
+			}
+			key := strings.Join(got, ";")
+			if seen[key] {
+				o.Fail("nni:command-duplicate", "line %d of the output repeats a neighbour of input tree %d\ninput:\n%s\noutput:\n%s", pos, ti, strings.Join(inputs, "\n"), res.outs["OUT"])
+				return
+			}
+			seen[key] = true
+		}
+	}
+	if pos != len(lines) {
+		o.Fail("nni:command-count", "gotree nni prints %d trees, %d expected (two per inner branch of each input tree)\ninput:\n%s\noutput:\n%s", len(lines), pos, strings.Join(inputs, "\n"), res.outs["OUT"])
+	}
 }
